@@ -69,13 +69,13 @@ AGGREGATORS = {
                       if curr is not None
                       else (1, new),
                       lambda value: value[1] / value[0],
-                      None,
+                      'number',
                       False),
     'median': Aggregator(lambda curr, new:
                          curr + [new] if curr is not None else [new],
                          median,
-                         None,
-                         True),
+                         'number',
+                         False),
     'max': Aggregator(lambda curr, new:
                       max(new, curr) if curr is not None else new,
                       identity,
